@@ -458,3 +458,84 @@ func TestC03Enum(t *testing.T) {
 	St.ClassN("enumerated_cases_in_which_the_pause_point_was_reached", paused)
 	St.Extra("enumeration_space", len(cases))
 }
+
+// A working set larger than the inode cache (100 slots): several clients write, truncate and read one shared
+// file while others keep looking at 160 further files, so that cached inodes are evicted while requests wait
+// for the shared file's lock.  Same oracle as TestC03Linearizable.
+func TestC03BigSet(t *testing.T) {
+	rapid.Check(t, func(t *rapid.T) {
+		unstable := rapid.Bool().Draw(t, "unstable")
+		d := NewDisk(9000)
+		d.SetRecord(false)
+		w, err := setupWorld(unstable, false, d)
+		if err != nil {
+			failf(t, "C03", nil, "setup: %v", err)
+		}
+		defer func() { w.S.Stop() }()
+		if err := w.addExtras(160); err != nil {
+			failf(t, "C03", nil, "setup: %v", err)
+		}
+		nwriters, nsweepers := rapid.IntRange(2, 4).Draw(t, "writers"), rapid.IntRange(1, 3).Draw(t, "sweepers")
+		var tag uint32
+		var progs [][]cOp
+		for c := 0; c < nwriters; c++ {
+			var prog []cOp
+			for i := 0; i < rapid.IntRange(6, 14).Draw(t, "nops"); i++ {
+				o := genCOp(t, cGenCfg{DataOps: true, Focus: true}, &tag)
+				if o.Kind == "write" {
+					o.Stable = nt.FILE_SYNC
+				}
+				prog = append(prog, o)
+			}
+			progs = append(progs, prog)
+		}
+		for c := 0; c < nsweepers; c++ {
+			var prog []cOp
+			for i := 0; i < rapid.IntRange(2, 5).Draw(t, "nsweeps"); i++ {
+				prog = append(prog, cOp{Kind: "sweep"})
+			}
+			progs = append(progs, prog)
+		}
+		var yield uint64
+		if rapid.Bool().Draw(t, "yields") {
+			yield = rapid.Uint64Range(1, 1<<62).Draw(t, "yieldseed")
+		}
+		run := w.runConcurrent(progs, yield, false, 60*time.Second, nil)
+		cc := concCase{Unstable: unstable, Progs: progs, YieldSeed: yield}
+		detail := cc.describe()
+		detail["history"] = describeHistory(run.Ops)
+		if run.Slow || run.Panic != "" || (run.Hung && !run.HungInFinal) {
+			St.Class("run_not_judged")
+			t.Skip("not judged here")
+		}
+		if run.HungInFinal {
+			failf(t, "C03", detail, "all clients returned, but the sequential observation of the final state does not terminate")
+		}
+		// the sweeps have no effect and always succeed: judge the rest (they only shape the schedule)
+		var ops []porcupine.Operation
+		for _, o := range run.Ops {
+			if o.Input.(cOp).Kind == "sweep" {
+				if !o.Output.(cRes).OK {
+					failf(t, "C03", detail, "GETATTR of a file nobody touches failed")
+				}
+				continue
+			}
+			ops = append(ops, o)
+		}
+		res, _ := porcupine.CheckOperationsVerbose(cModelFor(w.Init), ops, 30*time.Second)
+		St.Eval(1)
+		if conflicting(ops) > 0 {
+			St.NT(Hash(describeHistory(ops)))
+			St.Class("big_working_set_history_with_overlapping_conflicting_operations")
+		}
+		switch res {
+		case porcupine.Illegal:
+			failf(t, "C03", detail, "the concurrent history on a working set larger than the inode cache (%d operations) is not linearizable", len(ops))
+		case porcupine.Unknown:
+			St.Class("linearizability_check_timed_out")
+		}
+		if St.WantSample(true) {
+			St.Sample(map[string]any{"kind": "concurrent history, 160 further files being looked at", "writers": nwriters, "sweepers": nsweepers, "operations": len(ops)}, true)
+		}
+	})
+}
